@@ -22,6 +22,8 @@ MEM_DTYPES = SCALARS + sorted(VECTORS) + ["byte"]
 
 
 def flat(t):
+    if isinstance(t, dict):          # a parameter: fixed arrays flatten to extent x element list
+        return flat(t["type"]) * t.get("arr", 1)
     return VECTORS.get(t, [t])
 
 
@@ -29,6 +31,8 @@ def castable(frm, to):
     if frm == "byte" or to == "byte":
         return True
     a, b = flat(frm), flat(to)
+    if not isinstance(to, dict) and to == "byte":
+        return True
     short, long_ = (a, b) if len(a) <= len(b) else (b, a)
     if len(long_) % len(short):
         return False
@@ -40,10 +44,15 @@ def castable(frm, to):
 
 
 def gen_signature(r):
-    n = r.randint(1, 4)
+    n = r.choice([0, 1, 1, 2, 2, 3, 3, 4])
     params = []
     for i in range(n):
-        ptr = r.random() < 0.6
+        x = r.random()
+        if x < 0.2:
+            # fixed-size array parameter: passed as memory, element list = extent x element type
+            params.append({"type": r.choice(["float", "int", "double"]), "ptr": True, "const": False, "arr": r.randint(2, 10)})
+            continue
+        ptr = x < 0.68
         t = r.choice(SCALARS + (sorted(VECTORS) if ptr else []))
         params.append({"type": t, "ptr": ptr, "const": r.random() < 0.4})
     return params
@@ -52,7 +61,10 @@ def gen_signature(r):
 def kernel_source(params, variant):
     ps_ = []
     for i, p in enumerate(params):
-        s = ("const " if p["const"] else "") + p["type"] + (" *" if p["ptr"] else " ") + "p%d" % i
+        if p.get("arr"):
+            s = "%s p%d[%d]" % (p["type"], i, p["arr"])
+        else:
+            s = ("const " if p["const"] else "") + p["type"] + (" *" if p["ptr"] else " ") + "p%d" % i
         ps_.append(s)
     return ("@kernel void k(%s) {\n  for (int i = 0; i < 1; ++i; @outer) {\n    for (int j = 0; j < 1; ++j; @inner) {\n"
             "      int x = %d; x += 1;\n    }\n  }\n}\n" % (", ".join(ps_), variant))
@@ -64,7 +76,9 @@ def gen_tuple(r, params):
     for p in params:
         if p["ptr"]:
             x = r.random()
-            if x < 0.45:
+            if p.get("arr") and x < 0.75:
+                args.append({"t": "mem", "dtype": r.choice([p["type"], p["type"]] + [v for v in sorted(VECTORS) if VECTORS[v][0] == p["type"]] + ["byte", "int2"])})
+            elif x < 0.45:
                 args.append({"t": "mem", "dtype": p["type"]})
             elif x < 0.75:
                 args.append({"t": "mem", "dtype": r.choice(MEM_DTYPES)})
@@ -97,7 +111,7 @@ def model_decision(params, args):
         is_ptr_arg = a["t"] in ("mem", "null")
         if is_ptr_arg != p["ptr"]:
             return "R"
-        if a["t"] == "mem" and not castable(a["dtype"], p["type"]):
+        if a["t"] == "mem" and not castable(a["dtype"], p):
             return "R"
     return "A"
 
@@ -184,7 +198,8 @@ def execute(scn, sb):
 
 
 def _sig(params):
-    return ", ".join(("const " if p["const"] else "") + p["type"] + ("*" if p["ptr"] else "") for p in params)
+    return ", ".join(("%s[%d]" % (p["type"], p["arr"])) if p.get("arr") else
+                     (("const " if p["const"] else "") + p["type"] + ("*" if p["ptr"] else "")) for p in params)
 
 
 def _word(c):
